@@ -374,6 +374,10 @@ struct ViewModel {
             if (obj[o].IsEmpty() != (obj[o].Length() == 0)) return "IsEmpty";
             if (obj[o].Length() != 0 && obj[o].Last() != obj[o].First() + (obj[o].Length() - 1)) return "Last";
             if (obj[o].Length() == 0 && obj[o].Last() != nullptr) return "Last-on-empty";
+            if (obj[o].Length() != 0) {   // a proper prefix view of the same buffer (same start, shorter) is a different sequence
+                StringView<Ch> prefix(obj[o].First(), obj[o].Length() - 1);
+                if ((prefix == obj[o]) || !(prefix != obj[o]) || (obj[o] == prefix)) return "operator==(prefix view of the same buffer)";
+            }
         }
         return "";
     }
